@@ -141,17 +141,19 @@ def check_acceptor(ctx, acc_name, runs, metas, extra_compare=None, limit_broken=
 
 
 def budget_sweep(ctx, suite_const, nbases_quick, nbases_thorough, width=36, alarm=10.0):
-    """Budget sweeps: for a few base configurations in which runs end early and restart (hard or soft restarts,
-    averaging, loose rhoend), solve with maxfun = m0, m0+1, ..., m0+width-1.  Off-by-one and exit-route defects in
-    the counters / labels / merges typically show on one or two budgets of such a sweep only."""
+    """Targeted budget sweeps.  For a few base configurations in which runs end early and restart (hard restarts
+    with / without re-use of the residuals, soft restarts, averaging, loose rhoend) a PROBE run with a large budget
+    finds where runs end / restarts begin (nf at every `rst`, `srb`); the configuration is then solved with every
+    budget maxfun in a window around each of these boundaries and through the initialisation phase.  Off-by-one and
+    exit-route defects in counters / labels / merges typically show on one or two such budgets only."""
     dfols = core.import_dfols()
     nb = ctx.scale(nbases_quick, nbases_thorough) * getattr(ctx, "boost", 1)
     runs, metas = [], []
     for b in range(nb):
         rng = np.random.default_rng([ctx.seed, suite_const, 4242, b])
         prob = problems.rand_problem(rng, nmax=2)
-        mode = ["hard", "hard-newrk", "soft", "hard-newrk"][b % 4]
-        k = int(rng.integers(1, 4))
+        mode = ["hard-newrk", "hard", "soft", "hard-newrk"][b % 4]
+        k = int(rng.integers(2, 4)) if b % 2 == 0 else int(rng.integers(1, 3))
         up = {"restarts.use_restarts": True, "restarts.use_soft_restarts": mode == "soft",
               "restarts.max_unsuccessful_restarts": int(rng.integers(2, 6))}
         if mode == "hard-newrk":
@@ -161,13 +163,29 @@ def budget_sweep(ctx, suite_const, nbases_quick, nbases_thorough, width=36, alar
             up["restarts.max_npt"] = prob["n"] + 1 + int(rng.integers(1, 3))
         if rng.random() < 0.3:
             up["model.abs_tol"] = float(rng.choice([1e-3, 0.1, 1.0]))
-        m0 = int(rng.integers(prob["n"] + 2, 30))
-        for mf in range(m0, m0 + width):
-            kw = {"rhobeg": float(rng.choice([0.1, 0.3])) if mf == m0 else kw_rhobeg, "rhoend": 1e-2, "maxfun": mf, "user_params": dict(up)}
-            kw_rhobeg = kw["rhobeg"]
+        rhobeg = float(rng.choice([0.1, 0.3]))
+
+        def make_kw(mf):
+            kw = {"rhobeg": rhobeg, "rhoend": 1e-2, "maxfun": mf, "user_params": dict(up)}
             if k > 1:
                 kw["nsamples"] = (lambda delta, rho, it, nruns, k=k: k)
-            d = {"n": prob["n"], "kind": prob["kind"], "maxfun": mf, "restarts": mode, "sweep": [b, m0], "user_params": dict(up)}
+            return kw
+        np.random.seed((ctx.seed * 1000003 + suite_const * 101 + b * 7) % (2 ** 32))
+        probe = tr.traced_solve(dfols, prob["f"], prob["x0"], alarm=alarm, **make_kw(300))
+        bounds_nf = sorted(set(e[2] for e in probe.events if e[0] == "rst" and e[2] > 0))
+        nfc = 0
+        for e in probe.events:
+            if e[0] == "obj":
+                nfc += 1
+            elif e[0] == "srb":
+                bounds_nf.append(nfc)
+        budgets = set(range(1, prob["n"] + 4))
+        for bnd in sorted(set(bounds_nf))[:6]:
+            budgets.update(range(max(1, bnd - 1), bnd + k + 2))
+        budgets = sorted(budgets)[:width]
+        for mf in budgets:
+            kw = make_kw(mf)
+            d = {"n": prob["n"], "kind": prob["kind"], "maxfun": mf, "restarts": mode, "sweep": [b, mf], "user_params": dict(up)}
             if k > 1:
                 d["avg"] = (k, "sweep")
             np.random.seed((ctx.seed * 1000003 + suite_const * 101 + b * 7 + mf) % (2 ** 32))
